@@ -119,6 +119,23 @@ env_point(ec_point_p pt, unsigned idx, size_t bits, unsigned gx, unsigned gy) {
 	}
 }
 
+/* Same with the infinity decision made by the caller as a CONSTANT (is_inf), so that code whose loop bounds
+ * depend on "operand at infinity" (comb / window set-up) keeps concrete control flow; idx != 0 when !is_inf. */
+static inline void
+env_point_c(ec_point_p pt, int is_inf, unsigned idx, size_t bits, unsigned gx, unsigned gy) {
+	int error = ec_point_init(pt, bits);
+	V_ASSUME(0 == error);
+	if (is_inf) {
+		sb_set(&pt->x, gx);
+		sb_set(&pt->y, gy);
+		pt->infinity = 1;
+	} else {
+		sb_set(&pt->x, TX[idx]);
+		sb_set(&pt->y, TY[idx]);
+		pt->infinity = 0;
+	}
+}
+
 /* is pt the table's point idx? */
 static inline int
 env_point_is(ec_point_p pt, unsigned idx) {
